@@ -373,6 +373,9 @@ func check(c Case, o *pbt.Obs) *pbt.Failure {
 		for _, v := range cl.WalViolations() {
 			return pbt.Failf("C03:log-store-invariant", "round %d: %s", ri, v)
 		}
+		for _, v := range cl.SendViolations() {
+			return pbt.Failf("C03:message-before-durable", "round %d: %s", ri, v)
+		}
 		if f := sim.TakeUnexpectedFatal(); f != "" {
 			return pbt.Failf("C03:fatal-without-crash", "round %d: log.Fatal in a ready loop although no crash was injected there: %.600s", ri, f)
 		}
@@ -455,6 +458,9 @@ func check(c Case, o *pbt.Obs) *pbt.Failure {
 		}
 		for _, v := range cl.WalViolations() {
 			return pbt.Failf("C03:log-store-invariant", "round %d after restart: %s", ri, v)
+		}
+		for _, v := range cl.SendViolations() {
+			return pbt.Failf("C03:message-before-durable", "round %d after restart: %s", ri, v)
 		}
 		if f := sim.TakeUnexpectedFatal(); f != "" {
 			return pbt.Failf("C03:fatal-after-restart", "round %d: log.Fatal after restart: %.600s", ri, f)
@@ -578,7 +584,7 @@ func readState(ds interface {
 func TestAckedWritesSurviveCrash(t *testing.T) {
 	pbt.Run(t, pbt.Prop[Case]{
 		ID: "C03", Name: "TestAckedWritesSurviveCrash",
-		Rule: "rapid-generated write histories (insert/update/remove/batch insert/batch remove over 8 ids, optional real snapshots via the loop hook) through storage.Dataset on 1 node or on 3 nodes hosting every partition (product path: partitions created by the real DatasetManager/Allocator, raft groups loaded by watch->loadRaft, also on restart), in 1-3 rounds; each round arms a crash at the K-th next durable write (K in 1..6, before or after performing it) of one partition's log store on one node, armed before a generated op, with a generated settle pause; if the plan does not fire the node is killed between writes; then the node restarts over the same store (catalogue replayed, raft reloaded) and, in the 3-node case, catches up; oracle: acknowledgements are recorded under the same mutex as the crash flag; per id the recovered state must equal the state after the last acknowledged op or one produced by an in-flight op, and must be something a submitted write could have produced; log-store invariants (durable term/commit never go back, no vote change within a term, no overwrite of committed entries) and 'no log.Fatal without injected crash' hold throughout; non-trivial = the crash plan fired at a durable-write boundary after >=1 acknowledged write of that round; distinct = distinct case JSON",
+		Rule: "rapid-generated write histories (insert/update/remove/batch insert/batch remove over 8 ids, optional real snapshots via the loop hook) through storage.Dataset on 1 node or on 3 nodes hosting every partition (product path: partitions created by the real DatasetManager/Allocator, raft groups loaded by watch->loadRaft, also on restart), in 1-3 rounds; each round arms a crash at the K-th next durable write (K in 1..6, before or after performing it) of one partition's log store on one node, armed before a generated op, with a generated settle pause; if the plan does not fire the node is killed between writes; then the node restarts over the same store (catalogue replayed, raft reloaded) and, in the 3-node case, catches up; oracle: acknowledgements are recorded under the same mutex as the crash flag; per id the recovered state must equal the state after the last acknowledged op or one produced by an in-flight op, and must be something a submitted write could have produced; log-store invariants (durable term/commit never go back, no vote change within a term, no overwrite of committed entries), 'persist before acknowledge' at the message level (a granted vote / accepted append leaves a replica only after the term+vote / entries it attests are durable in its log store) and 'no log.Fatal without injected crash' hold throughout; non-trivial = the crash plan fired at a durable-write boundary after >=1 acknowledged write of that round; distinct = distinct case JSON",
 		Gen:     genCase,
 		Check:   check,
 		Journal: true,
